@@ -17,6 +17,7 @@ struct Engine {
     // optional bounded-exhaustive tier run before the random tier; returns false to stop (failure recorded)
     std::function<bool(const rt::Args &, rt::Stats &, rt::Failure &)> exhaustive;
     bool fork_eval = false; // evaluate each case in a forked child (engine A: only with --fork)
+    std::function<void(rt::Verdict &)> post; // parent-side post-processing of a verdict (e.g. classify sanitizer reports)
 };
 
 template <class Case>
@@ -24,8 +25,9 @@ int run(int argc, char **argv, Engine<Case> &E) {
     rt::Args args = rt::parse_args(argc, argv);
     if (const char *e = getenv("VERIF_FORK")) if (*e == '1') args.fork_per_case = true;
     auto evaluate = [&](const Case &c) -> rt::Verdict {
-        if (E.fork_eval || args.fork_per_case) return rt::run_forked(args.prop, [&] { return E.eval(c, args); });
-        return E.eval(c, args);
+        rt::Verdict v = (E.fork_eval || args.fork_per_case) ? rt::run_forked(args.prop, [&] { return E.eval(c, args); }) : E.eval(c, args);
+        if (E.post) E.post(v);
+        return v;
     };
 
     if (!args.replay.empty()) {
